@@ -133,7 +133,7 @@ ConsumeLine ==
      ELSE IF r.c = "ret" THEN
        /\ viol' = viol \cup Owed
                     \cup Tag(r.panic, "C10-loop-panicked")
-                    \cup Tag(failed /\ (r.ok \/ (opt.errtext /\ r.err # errmsg)), "C20-error-not-returned")
+                    \cup Tag(failed /\ (r.ok \/ (opt.errtext /\ r.err # errmsg /\ ~("errhas" \in DOMAIN r /\ r.errhas))), "C20-error-not-returned")
                     \cup Tag(~failed /\ ~r.ok /\ ~r.panic, "C10-loop-returned-error")
                     \cup Tag(~failed /\ r.ok /\ ~ended, "C10-loop-returned-before-end-of-device")
        /\ Conf(r) /\ must' = NoMust /\ onJust' = FALSE
